@@ -26,7 +26,8 @@ Part C  the database, over all histories of insert / downsample_scaled / JSON sa
   `assignments_exact`, `identifiers_exact`, `reconstruct`, `len_counts_all`
   `json_roundtrip` (+ `json_assignments`, `json_identifiers`, `json_signatures`, `json_lineage_same_taxa`)
   `downsample_entry`, `downsample_commutes`, regression `downsample_keeps_threshold_hash` (D9, repaired)
-  `empty_sketch_counted_not_yielded` (D11), `sql_downsample_changes_no_answer` (C18.3),
+  `signatures_named`, regression `empty_sketch_counted_and_yielded` (D11, repaired),
+  `signatures_count`, `sql_keeps_every_signature`, `sql_downsample_changes_no_answer` (C18.3),
   `sql_identifiers_absent_hash`, `sql_hash_roundtrip` (C18.6 / C18.7, repaired)
 -/
 import SmVerif.Lemmas.LineageLca
@@ -411,14 +412,15 @@ theorem identifiers_exact {db : Db} {log : List Entry} (hq : QRep db log) (h : N
 theorem len_counts_all {db : Db} {log : List Entry} (hq : QRep db log) : db.len = log.length :=
   hq.nextIndex
 
-/-- `_signatures`: the sketch rebuilt for index `j` is the strictly ascending list of the hashes signature
-    `j` holds (below the threshold of the database's scaled); an index is rebuilt iff its signature holds
-    at least one hash -/
+/-- `_signatures`: every inserted signature is rebuilt — the domain is exactly the set of inserted
+    indices, including signatures that hold no hash at the database's scaled — and the sketch rebuilt
+    for index `j` is the strictly ascending list of the hashes signature `j` holds (below the threshold
+    of the database's scaled) -/
 theorem reconstruct {db : Db} {log : List Entry} (hq : QRep db log) :
     (keys db.sketches).Nodup ∧
     (∀ j, ((get? db.sketches j).getD []).Pairwise (· < ·)) ∧
     (∀ j h, h ∈ (get? db.sketches j).getD [] ↔ ∃ e, log[j]? = some e ∧ h ∈ e.kept ∧ h ≤ mhR db.scaled) ∧
-    (∀ j, j ∈ keys db.sketches ↔ ∃ e, log[j]? = some e ∧ e.kept ≠ []) := by
+    (∀ j, j ∈ keys db.sketches ↔ ∃ e, log[j]? = some e) := by
   obtain ⟨h1, h2, h3, h4⟩ := sketches_spec db
   have hrel : ∀ j h, (∃ s, (h, s) ∈ db.hashvalToIdx ∧ j ∈ s) ↔ ∃ e, log[j]? = some e ∧ h ∈ e.kept := by
     intro j h
@@ -444,41 +446,70 @@ theorem reconstruct {db : Db} {log : List Entry} (hq : QRep db log) :
       obtain ⟨s, hs, hj⟩ := (hrel j h).mpr ⟨e, he, hk⟩
       exact ⟨s, hs, hj, hle⟩
   · intro j
-    rw [h4 j]
+    rw [h4 j, hq.identToIdx, vals_identIdx, List.mem_range]
     constructor
-    · rintro ⟨h, s, hs, hj⟩
-      obtain ⟨e, he, hk⟩ := (hrel j h).mp ⟨s, hs, hj⟩
-      exact ⟨e, he, List.ne_nil_of_mem hk⟩
-    · rintro ⟨e, he, hne⟩
-      obtain ⟨h, hh⟩ := List.exists_mem_of_ne_nil _ hne
-      obtain ⟨s, hs, hj⟩ := (hrel j h).mpr ⟨e, he, hh⟩
-      exact ⟨h, s, hs, hj⟩
+    · rintro (⟨h, s, hs, hj⟩ | hlt)
+      · obtain ⟨e, he, _⟩ := (hrel j h).mp ⟨s, hs, hj⟩
+        exact ⟨e, he⟩
+      · exact ⟨log[j], List.getElem?_eq_getElem hlt⟩
+    · rintro ⟨e, he⟩
+      exact Or.inr (List.getElem?_eq_some_iff.mp he).1
 
-/-- hence, when the stored hashes respect the threshold, the rebuilt sketch *is* the inserted one:
-    any strictly ascending list with the same members equals it -/
+/-- hence, when the stored hashes respect the threshold, the rebuilt sketch *is* the inserted one
+    (possibly empty): it is present, and any strictly ascending list with the same members equals it -/
 theorem reconstruct_exact {db : Db} {log : List Entry} (hq : QRep db log) {j : Nat} {e : Entry}
     (he : log[j]? = some e) (hb : ∀ h ∈ e.kept, h ≤ mhR db.scaled) {hs : List Nat}
     (hsorted : hs.Pairwise (· < ·)) (hmem : ∀ h, h ∈ hs ↔ h ∈ e.kept) :
-    (get? db.sketches j).getD [] = hs := by
-  obtain ⟨_, h2, h3, _⟩ := reconstruct hq
-  apply sorted_ext (h2 j) hsorted
-  intro h
-  rw [h3 j h, hmem]
-  constructor
-  · rintro ⟨e', he', hk, _⟩
-    rw [he] at he'; cases he'; exact hk
-  · intro hk; exact ⟨e, he, hk, hb h hk⟩
+    get? db.sketches j = some hs := by
+  obtain ⟨_, h2, h3, h4⟩ := reconstruct hq
+  have hpres : (get? db.sketches j).isSome := get?_isSome_iff.mpr ((h4 j).mpr ⟨e, he⟩)
+  have heq : (get? db.sketches j).getD [] = hs := by
+    apply sorted_ext (h2 j) hsorted
+    intro h
+    rw [h3 j h, hmem]
+    constructor
+    · rintro ⟨e', he', hk, _⟩
+      rw [he] at he'; cases he'; exact hk
+    · intro hk; exact ⟨e, he, hk, hb h hk⟩
+  cases hg : get? db.sketches j with
+  | none => simp [hg] at hpres
+  | some v => simp [hg] at heq; rw [heq]
 
-/-! ### finding D11: a sketch that is empty at the database's scaled is counted but never yielded
+/-- `_signatures` with names: every rebuilt sketch carries the name its signature was inserted with, and
+    nothing fails -/
+theorem signatures_named {db : Db} {log : List Entry} (hq : QRep db log) :
+    db.signatures = .ok (db.sketches.map (fun p => (p.1, ((log[p.1]?).map Entry.name).getD "", p.2))) := by
+  unfold Db.signatures
+  rw [idxToIdent_eq hq]
+  simp only
+  obtain ⟨_, _, _, h4⟩ := reconstruct hq
+  have hall : ∀ p ∈ db.sketches, ∃ e, log[p.1]? = some e := fun p hp => (h4 p.1).mp (mem_keys_of_mem hp)
+  generalize db.sketches = l at hall
+  induction l with
+  | nil => simp [pure, Except.pure]
+  | cons p ps ih =>
+    obtain ⟨e, he⟩ := hall p (by simp)
+    have hname : get? db.identToName e.ident = some e.name := by
+      rw [hq.identToName]
+      apply get?_of_mem_nodup
+      · rw [keys_eq_map, List.map_map]; exact hq.idents_nodup
+      · exact List.mem_map.mpr ⟨e, List.mem_of_getElem? he, rfl⟩
+    rw [List.mapM_cons, get?_idxIdent, he]
+    simp only [Option.map_some, hname, bind, Except.bind]
+    rw [ih (fun q hq' => hall q (List.mem_cons_of_mem _ hq'))]
+    simp [pure, Except.pure, he]
 
-   FULL STATEMENT (not proved / false): "reconstructs each inserted sketch exactly" would need
-     ∀ j e, log[j]? = some e → j ∈ keys db.sketches
-   `reconstruct` proves the exact domain instead (`e.kept ≠ []`); the kernel-checked instance: -/
+/-! ### D11 (repaired in /repo, 74325d9): a sketch that is empty at the database's scaled is yielded
 
-theorem empty_sketch_counted_not_yielded :
-    let sig : Sig := { name := "e", filename := "", ksize := 21, moltype := 0, num := 0, scaled := 10, hashes := [] }
-    let db := (Db.insert (Db.new 21 10 0) sig "" []).1
-    db.len = 1 ∧ db.signatures.toOption = some [] := by decide
+   Regression example, kernel-checked on the model of the code as it stands now: one signature without
+   hashes at scaled 10 and one with; both are counted and both are yielded, the first with an empty
+   sketch. -/
+
+theorem empty_sketch_counted_and_yielded :
+    let s0 : Sig := { name := "e", filename := "", ksize := 21, moltype := 0, num := 0, scaled := 10, hashes := [] }
+    let s1 : Sig := { name := "f", filename := "", ksize := 21, moltype := 0, num := 0, scaled := 10, hashes := [3] }
+    let db := (Db.insert (Db.insert (Db.new 21 10 0) s0 "" []).1 s1 "" []).1
+    db.len = 2 ∧ db.signatures.toOption = some [(1, "f", [3]), (0, "e", [])] := by decide
 
 /-! ### JSON save / load -/
 
@@ -618,6 +649,35 @@ theorem sql_downsample_changes_no_answer {s s' : SqlDb} {S : Nat} (h : s.downsam
   · simp only [h1, if_false, Except.ok.injEq] at h
     subst h
     exact ⟨rfl, fun _ _ => rfl, fun _ => rfl, rfl, rfl⟩
+
+/-- every inserted signature is rebuilt exactly once: `signatures()` has as many items as `len(db)` -/
+theorem signatures_count {db : Db} {log : List Entry} (hq : QRep db log) : db.sketches.length = log.length := by
+  obtain ⟨h1, _, _, h4⟩ := reconstruct hq
+  have hp : (keys db.sketches).Perm (List.range log.length) := by
+    rw [List.perm_ext_iff_of_nodup h1 List.nodup_range]
+    intro j
+    rw [h4 j, List.mem_range]
+    constructor
+    · rintro ⟨e, he⟩; exact (List.getElem?_eq_some_iff.mp he).1
+    · intro hlt; exact ⟨log[j], List.getElem?_eq_getElem hlt⟩
+  have := hp.length_eq
+  rw [keys_eq_map] at this
+  simpa using this
+
+/-- the SQLite form is built from `signatures()`, so (D11 repaired) it now has a row for every inserted
+    signature, including those that hold no hash at the database's scaled: `len` agrees with the source -/
+theorem sql_keeps_every_signature {db : Db} {log : List Entry} (hq : QRep db log) {s : SqlDb}
+    (h : db.toSql = .ok s) : s.len = db.len := by
+  unfold Db.toSql at h
+  rw [signatures_named hq] at h
+  simp only at h
+  split at h
+  · cases h
+  · split at h
+    · cases h
+    · simp only [Except.ok.injEq] at h
+      subst h
+      simp [SqlDb.len, signatures_count hq, len_counts_all hq]
 
 /-- C18.6 (repaired): a hash nobody holds has no identifiers on the SQLite form either -/
 theorem sql_identifiers_absent_hash (s : SqlDb) (h : Nat) (hh : s.idxsOf h = []) :
